@@ -406,7 +406,11 @@ func formRoundtripCase(cfg *RunCfg, st *Stats, w *CaseWriter, idx int, distinct 
 			if do == oErr {
 				what = "decode(encode(v)) failed: " + msg
 			} else if do == oOK {
-				what += fmt.Sprintf(" (got %+v)", dst.Elem().Interface())
+				g := fmt.Sprintf("%+v", dst.Elem().Interface())
+				if len(g) > 300 {
+					g = g[:300] + "..."
+				}
+				what += " (got " + g + ")"
 			}
 			st.Fail(idx, "form-roundtrip", what, human)
 		}
